@@ -38,7 +38,7 @@ func skip(p gobatch.Program) string { return "" }
 
 func TestHierarchies(t *testing.T) {
 	gobatch.Run(t, gobatch.Config{
-		Rec: rec, Name: "c09", N: rec.Scale(150, 2000),
+		Rec: rec, Name: "c09", N: rec.Scale(150, 1000),
 		Gen: Generate, Known: known, Skip: skip,
 	})
 }
@@ -54,7 +54,7 @@ func checkReject(bad gobatch.Program) string {
 
 func TestRejected(t *testing.T) {
 	seq := 0
-	rec.Check(t, rec.Scale(100, 1200), func(rt *rapid.T) {
+	rec.Check(t, rec.Scale(100, 600), func(rt *rapid.T) {
 		seq++
 		px := fmt.Sprintf("R%dN%d_", rec.Shard(), seq)
 		bad, control, kind, ok := GenerateReject(rt, px)
